@@ -11,3 +11,5 @@ import Stackage.Model.LogLevel
 import Stackage.Model.Options
 import Stackage.Spec.OptSpec
 import Stackage.Spec.OptLink
+import Stackage.Model.Defrag
+import Stackage.Spec.DefragSpec
